@@ -113,7 +113,7 @@ def conditional_part(ck, tier):
         # conditional of coordinate i given the others at `point` is Gaussian: variance 1/P_ii
         sd = 1.0 / np.sqrt(np.diag(P))
         point = mu + rng.uniform(-1.5, 1.5, size=n) * sd * (0.3 if case % 3 else 1.0)
-        mode = case % 4
+        mode = case % 5
         lo = np.empty(n)
         hi = np.empty(n)
         cm = np.empty(n)
@@ -125,6 +125,8 @@ def conditional_part(ck, tier):
                 lo[i], hi[i] = cm[i] - sd[i] * rng.uniform(20, 60), cm[i] + sd[i] * rng.uniform(20, 60)
             elif mode == 1:    # bounds cut one tail
                 lo[i], hi[i] = cm[i] - sd[i] * rng.uniform(0.5, 2), cm[i] + sd[i] * rng.uniform(6, 12)
+            elif mode == 4:    # very wide bounds (1e4 .. 1e6 conditional widths): met only through the conditioning coordinate
+                lo[i], hi[i] = cm[i] - sd[i] * 10.0 ** rng.uniform(4, 6), cm[i] + sd[i] * 10.0 ** rng.uniform(4, 6)
             elif mode == 2:    # bounds cut both tails
                 lo[i], hi[i] = cm[i] - sd[i] * rng.uniform(1, 3), cm[i] + sd[i] * rng.uniform(1, 3)
             else:
